@@ -248,6 +248,27 @@ func runC11(w *mon.W) {
 			n = len(s)
 			w.Add("large_expansions", 1)
 		}
+		switch {
+		case i%20 == 7 && n > 0:
+			// runs: stretches of one code (gaps of N, homopolymers) of 1..60 letters, case drawn letter by letter
+			var sb strings.Builder
+			for sb.Len() < n {
+				c := upper[r.Intn(len(upper))]
+				if r.Intn(2) == 0 {
+					c = 'N'
+				}
+				sb.WriteString(strings.Repeat(string(c), 1+r.Intn(60)))
+			}
+			s = randCase(r, sb.String()[:n], []float64{0.5, 0.5, 0.1}[r.Intn(3)])
+			w.Add("strings_made_of_runs", 1)
+		case i%20 == 13:
+			// an odd-length near-palindrome: reverse-complementary arms around one centre base
+			x := randString(r, alpha, 1+r.Intn(100))
+			s = x + string(upper[r.Intn(len(upper))]) + oracle.MustRevComp(x)
+			s = randCase(r, s, []float64{0, 0, 1}[r.Intn(3)])
+			n = len(s)
+			w.Add("odd_near_palindromes", 1)
+		}
 		hasU := false
 		if r.Intn(10) == 0 && n > 0 {
 			b := []byte(s)
